@@ -23,6 +23,7 @@ var errVerify = errors.New("c18 verifier rejected the config")
 type verifyRec struct {
 	mu    sync.Mutex
 	calls []any // deep copies of the receivers (pointers to the config type)
+	ptrs  []any // the receivers themselves (to see whether they are modified later)
 }
 
 var (
@@ -46,7 +47,15 @@ func recordVerify(cfg any) {
 	cp := deepCopy(cfg)
 	r.mu.Lock()
 	r.calls = append(r.calls, cp)
+	r.ptrs = append(r.ptrs, cfg)
 	r.mu.Unlock()
+}
+
+// receivers returns the Verify receivers and the snapshots taken at call time.
+func (r *verifyRec) receivers() (ptrs, snaps []any) {
+	r.mu.Lock()
+	defer r.mu.Unlock()
+	return append([]any(nil), r.ptrs...), append([]any(nil), r.calls...)
 }
 
 func (r *verifyRec) snapshot() []any {
@@ -135,10 +144,12 @@ type NestLimits struct {
 	Idle    time.Duration `dials:"idle"`
 }
 
+// Limits is a user-declared pointer to a struct whose default is non-nil:
+// every stacked version must get its own copy of the pointee.
 type NestServer struct {
-	Host   string     `dials:"host"`
-	Port   int        `dials:"port" dialsalias:"listen_port"`
-	Limits NestLimits `dials:"limits"`
+	Host   string      `dials:"host"`
+	Port   int         `dials:"port" dialsalias:"listen_port"`
+	Limits *NestLimits `dials:"limits"`
 }
 
 type NestCfg struct {
@@ -158,6 +169,9 @@ func (c *NestCfg) Verify() error {
 func (c *NestCfg) rule() error {
 	if c.Level <= 0 {
 		return fmt.Errorf("level %d is not positive: %w", c.Level, errVerify)
+	}
+	if c.Server.Limits == nil {
+		return fmt.Errorf("limits is nil (the default is non-nil): %w", errVerify)
 	}
 	if c.Server.Limits.MaxConn < 0 {
 		return fmt.Errorf("max_conn %d is negative: %w", c.Server.Limits.MaxConn, errVerify)
@@ -179,7 +193,7 @@ type PlainCfg struct {
 	MaxIdle    int
 	Grace      time.Duration
 	Peers      []string
-	DB         PlainDB
+	DB         *PlainDB // non-nil in the defaults
 	Weight     float64
 }
 
@@ -191,6 +205,9 @@ func (c *PlainCfg) Verify() error {
 }
 
 func (c *PlainCfg) rule() error {
+	if c.DB == nil {
+		return fmt.Errorf("db is nil (the default is non-nil): %w", errVerify)
+	}
 	if c.DB.Retries < 0 {
 		return fmt.Errorf("retries %d is negative: %w", c.DB.Retries, errVerify)
 	}
